@@ -9,6 +9,7 @@ package main
 //	typedid <Name> <struct>           → "<struct'>"             through ToMesg(IncludeExpandedFields, standard factory) and back
 //	                                                            (--spec: the struct itself when it is InRange)
 //	typednil <Name>                   → "<struct> <message>"    NewXxx(nil) and its ToMesg(nil)
+//	typedseq <Name> <message1> <message2> → "<struct>"          s := NewXxx(&message1); s.Reset(&message2): nothing of message1 survives
 //
 //	<opts>   ::= "o:nil" | "o:" ("i"|"-") "," ("std"|"zero"|"unk"|"alt"|"nil")
 //	             i = IncludeExpandedFields; factory: std = factory.StandardFactory(), zero = Options.Factory left nil,
@@ -43,6 +44,7 @@ func init() {
 	executors["typedsm"] = execTypedSM
 	executors["typedid"] = execTypedID
 	executors["typednil"] = execTypedNil
+	executors["typedseq"] = execTypedSeq
 }
 
 // ---------------------------------------------------------------- custom factories
@@ -301,6 +303,21 @@ func execTypedNil(args []string) string {
 	return printStruct(t, s) + " " + printMessage(&m)
 }
 
+func execTypedSeq(args []string) string {
+	if len(args) != 3 {
+		return "bad-op"
+	}
+	t := typedTable(args[0])
+	m1, ok1 := parseMessage(args[1])
+	m2, ok2 := parseMessage(args[2])
+	if t == nil || !ok1 || !ok2 {
+		return "bad-op"
+	}
+	s := t.newStruct(&m1)
+	s.MethodByName("Reset").Call([]reflect.Value{reflect.ValueOf(&m2)})
+	return printStruct(t, s)
+}
+
 // ---------------------------------------------------------------- generators
 
 var typedOptStrings = []string{"o:nil", "o:-,std", "o:i,std", "o:-,zero", "o:i,zero", "o:i,unk", "o:-,alt", "o:i,alt", "o:i,nil"}
@@ -430,7 +447,7 @@ func genTyped(emit func(string), tier string, rng *Rng) {
 	}
 	nRandom, nStruct := 60, 60
 	if tier == "thorough" {
-		nRandom, nStruct = 3000, 3000
+		nRandom, nStruct = 600, 600
 	}
 	pv := probeValues()
 	for _, t := range ts {
@@ -470,7 +487,7 @@ func genTyped(emit func(string), tier string, rng *Rng) {
 			count("number-sweep")
 		}
 		// random messages: subsets of the slots (some twice), unknown fields in between, developer fields, all options
-		for j := 0; j < nRandom; j++ {
+		randomMesg := func() proto.Message {
 			var m proto.Message
 			m.Num = t.num
 			p := 1 + r.Intn(4)
@@ -507,10 +524,19 @@ func genTyped(emit func(string), tier string, rng *Rng) {
 				count("nil-fieldbase")
 			}
 			m.DeveloperFields = randomDevFields(r)
+			return m
+		}
+		for j := 0; j < nRandom; j++ {
+			m := randomMesg()
 			o := typedOptStrings[r.Intn(len(typedOptStrings))]
 			em("typedms", o, &m)
 			em("typedrt", o, &m)
 			count("random-message")
+			if j%6 == 0 { // a used struct is reset with another message
+				m2 := randomMesg()
+				emit(fmt.Sprintf("typedseq %s %s %s", t.name, printMessage(&m), printMessage(&m2)))
+				count("reset-reuse")
+			}
 		}
 		// structs → message → struct
 		for j := 0; j < nStruct; j++ {
